@@ -641,7 +641,7 @@ int64_t carquet_rle_decode_levels_prefixed(
 
     /* Read 4-byte length prefix (little-endian) */
     uint32_t rle_length = carquet_read_u32_le(input);
-    if (4 + rle_length > input_size) {
+    if (rle_length > input_size - 4) {  /* input_size >= 4 here; 4 + rle_length would wrap */
         if (bytes_consumed) *bytes_consumed = 0;
         return -1;
     }
